@@ -15,7 +15,7 @@ LEVEL = "exploration"
 RULE = ("scripts over 1-3 concurrent send_messages_await_response_complex calls (own or shared response types out of 3, timeouts 0.5/1/2 s, "
         "harness-owned accept/stop predicates keyed by bits in the message) with events {start call i (+ device replies emitted the moment the "
         "request is received = readable in the very next loop turn), arrival(type, accept bits, stop bits), cancel call i, close(eof|garbage|force)} "
-        "and gaps {same instant, +1 ms, exactly at call j's timeout instant}; seeded random scripts, all orderings of small event sets at thorough; "
+        "and gaps {same instant, same chunk as the previous arrival (one TCP segment), +1 ms, exactly at call j's timeout instant}; instant replies optionally coalesced into one chunk; seeded random scripts, all orderings of small event sets at thorough; "
         "plus the public wrappers. Oracle: per-call sequential model over the recorded arrival history (process_packet order), exact timeout "
         "instant, connection's error at close, cancellation; leftovers after every ending: predicates never invoked after the call returned, "
         "no handle_timeout timer beyond the calls still pending, handler table / waiter set hold nothing of finished calls. Non-trivial = at least "
@@ -47,6 +47,7 @@ def run_script(script: dict[str, Any]) -> dict[str, Any]:
         cfg = DeviceConfig()
         if script["framing"] == "noise":
             cfg.noise_psk = PSK
+        cfg.coalesce_replies = bool(script.get("coalesce"))   # replies produced while handling one request share one chunk
         counter = itertools.count(1)
 
         def mk_instant(i: int) -> Any:
@@ -106,8 +107,18 @@ def run_script(script: dict[str, Any]) -> dict[str, Any]:
         # absolute schedule
         t = sim.clock
         t_call: dict[int, float] = {}
+        chunk: list[tuple[Any, ...]] = []      # arrivals collected for ONE chunk (gap "chunk" = same TCP segment as the previous arrival)
+        chunk_t = t
+
+        def flush() -> None:
+            if chunk:
+                dconn.deliver_items(list(chunk), chunk_t - sim.clock)
+                chunk.clear()
+
         for ev in script["events"]:
             gap, kind = ev[0], ev[1]
+            if not (gap == "chunk" and kind == "arrive" and chunk):
+                flush()
             if gap == "ms":
                 t += 0.001
             elif isinstance(gap, list) and gap[0] == "to":
@@ -120,7 +131,10 @@ def run_script(script: dict[str, Any]) -> dict[str, Any]:
                 sim.at(t, functools.partial(start_call, i))
             elif kind == "arrive":
                 _, _, ty, acc, stp = ev
-                dconn.send(TYPES[ty], _delay=t - sim.clock, key=key_of(next(counter), acc, stp))
+                msg = getattr(pb, TYPES[ty])(key=key_of(next(counter), acc, stp))
+                if not chunk:
+                    chunk_t = t
+                chunk.append(("msg", dev.proto.id_of(TYPES[ty]), msg.SerializeToString()))
             elif kind == "cancel":
                 sim.at(t, functools.partial(cancel_call, ev[2]))
             elif kind == "close":
@@ -131,6 +145,8 @@ def run_script(script: dict[str, Any]) -> dict[str, Any]:
                     dconn.send_raw(b"\x42\x42\x42" if script["framing"] == "plain" else b"\x07\x00\x00", t - sim.clock)
                 elif cause == "force":
                     sim.at(t, lambda: conn.force_disconnect())
+
+        flush()
 
         def audit() -> None:
             if not sim.end_of_instant():
@@ -293,12 +309,14 @@ def gen_script(rng: Any, framing: str) -> dict[str, Any]:
             started.add(i)
             events.append([gap, "call", i])
         elif r < 0.8:
+            if events[-1][1] == "arrive" and rng.random() < 0.4:
+                gap = "chunk"
             events.append([gap, "arrive", rng.randrange(3), rng.randrange(8), rng.randrange(8) if rng.random() < 0.45 else 0])
         elif r < 0.9:
             events.append([gap, "cancel", rng.choice(sorted(started))])
         else:
             events.append([gap, "close", rng.choice(["eof", "garbage", "force"])])
-    return {"framing": framing, "calls": calls, "events": events}
+    return {"framing": framing, "calls": calls, "events": events, "coalesce": rng.random() < 0.5}
 
 
 def small_exhaustive() -> Any:
@@ -307,7 +325,7 @@ def small_exhaustive() -> Any:
     atoms = [["call", 1], ["arrive", 0, 3, 0], ["arrive", 0, 3, 1], ["arrive", 1, 1, 2], ["arrive", 0, 2, 2], ["cancel", 0], ["close", "eof"]]
     for k in (3, 4, 5):
         for combo in itertools.permutations(atoms, k):
-            for gaps in itertools.product(("0", "ms"), repeat=k) if k <= 4 else [("0",) * k, ("ms",) * k]:
+            for gaps in itertools.product(("0", "ms", "chunk"), repeat=k) if k <= 3 else (itertools.product(("0", "chunk"), repeat=k) if k == 4 else [("0",) * k, ("ms",) * k, ("chunk",) * k]):
                 ev = [["0", "call", 0]] + [[g, *a] for g, a in zip(gaps, combo)]
                 yield {"framing": "plain", "calls": base_calls, "events": ev}
 
